@@ -56,6 +56,7 @@ func c07Layers() []rspLayer {
 		return func(d []byte) (ref.Fields, bool, error) { return ref.DCMICaps(p, d) }
 	}
 	return []rspLayer{
+		{"ipmi.Message", func() decoder { return &ipmi.Message{} }, ref.LANMessage, 7},
 		{"ipmi.GetDeviceIDRsp", func() decoder { return &ipmi.GetDeviceIDRsp{} }, ref.DeviceID, 11},
 		{"ipmi.GetChassisStatusRsp", func() decoder { return &ipmi.GetChassisStatusRsp{} }, ref.ChassisStatus, 3},
 		{"ipmi.GetChannelAuthenticationCapabilitiesRsp", func() decoder { return &ipmi.GetChannelAuthenticationCapabilitiesRsp{} }, ref.AuthCaps, 8},
@@ -286,7 +287,53 @@ func c07One(l rspLayer, in []byte) (string, string) {
 	if name, got, exp := compareFields(want, lay); name != "" {
 		return "C07/" + l.Name + "/" + name, fmt.Sprintf("decoding % x: field %s = %s, the specification's encoding means %s", in, name, got, exp)
 	}
+	// the same must hold whatever the value decoded before: decode into a value
+	// that has just decoded each of the layer's other shapes
+	for _, earlier := range c07Earlier(l.Name) {
+		used := l.New()
+		e := append([]byte{}, earlier...)
+		if guard(func() { used.DecodeFromBytes(e, gopacket.NilDecodeFeedback) }) != "" {
+			continue
+		}
+		d2 := append([]byte{}, in...)
+		var err2 error
+		if p := guard(func() { err2 = used.DecodeFromBytes(d2[:len(d2):len(d2)], gopacket.NilDecodeFeedback) }); p != "" {
+			return "C07/" + l.Name + "/panic", p
+		}
+		if err2 != nil {
+			return "C07/" + l.Name + "/valid-encoding-rejected-by-used-value", fmt.Sprintf("decoding % x into a value that had decoded % x: %v", in, earlier, err2)
+		}
+		if name, got, exp := compareFields(want, used); name != "" {
+			return "C07/" + l.Name + "/" + name + "/used-value", fmt.Sprintf("decoding % x into a value that had decoded % x: field %s = %s, the specification's encoding means %s", in, earlier, name, got, exp)
+		}
+	}
 	return "", ""
+}
+
+var c07EarlierCache map[string][][]byte
+
+// c07Earlier: the shapes a value may have decoded before: every base encoding
+// of the layer and the all-ones variant of the longest.
+func c07Earlier(name string) [][]byte {
+	if c07EarlierCache == nil {
+		c07EarlierCache = map[string][][]byte{}
+		for _, d := range decLayers() {
+			var out [][]byte
+			longest := 0
+			for _, b := range d.Bases {
+				out = append(out, b)
+				if len(b) > longest {
+					longest = len(b)
+				}
+			}
+			if len(out) > 6 {
+				out = out[:6]
+			}
+			out = append(out, pattern(longest, 0xFF, 0))
+			c07EarlierCache[d.Name] = out
+		}
+	}
+	return c07EarlierCache[name]
 }
 
 // compareFields compares every field the reference defines with the
@@ -397,6 +444,24 @@ func runC07(r *rep.R) {
 					m[pos] = byte(v)
 					do(l, m)
 				}
+			}
+		}
+	}
+	// IPMI messages: every value of every non-checksum byte with both checksums
+	// recomputed (so every network function, LUN, sequence, command, completion
+	// code, body code and enterprise number byte is reached on a valid message)
+	msgL := layersByName["ipmi.Message"]
+	for _, mb := range reg["ipmi.Message"].Bases {
+		for pos := 0; pos < len(mb)-1; pos++ {
+			if pos == 2 {
+				continue
+			}
+			for v := 0; v < 256; v++ {
+				m := append([]byte{}, mb...)
+				m[pos] = byte(v)
+				m[2] = ref.Checksum(m[:2])
+				m[len(m)-1] = ref.Checksum(m[3 : len(m)-1])
+				do(msgL, m)
 			}
 		}
 	}
